@@ -33,6 +33,7 @@ const (
 	retObj                   // a fresh object {"k":1,"a":2}
 	retThrow                 // throws an Error object whose name is "Boom"
 	retGrow                  // a fresh, deeper value at every call: replacer -> [0]; toJSON -> {"next": o}, o a fresh object with this same toJSON
+	retNest                  // re-entrancy: calls JSON.stringify / JSON.parse itself (s: what on; n=1: then returns the target), see reentrant.go
 	retTarget                // the object marked as target in the value description (the SAME object every time)
 )
 
@@ -87,6 +88,12 @@ var behaviours = []behaviour{
 	{"toInf", func(c bctx) ret { return ret{kind: retNum, n: inf} }},
 	{"toThrow", func(c bctx) ret { return ret{kind: retThrow} }},
 	{"grow", func(c bctx) ret { return ret{kind: retGrow} }},
+	{"nestUnrelated", func(c bctx) ret { return ret{kind: retNest, s: "unrelated"} }},
+	{"nestSelf", func(c bctx) ret { return ret{kind: retNest, s: "self"} }},
+	{"nestTarget", func(c bctx) ret { return ret{kind: retNest, s: "target"} }},
+	{"nestTargetRet", func(c bctx) ret { return ret{kind: retNest, s: "target", n: 1} }},
+	{"nestParse", func(c bctx) ret { return ret{kind: retNest, s: "parse"} }},
+	{"nestParseRevive", func(c bctx) ret { return ret{kind: retNest, s: "parseRevive"} }},
 	{"toTarget", func(c bctx) ret { return ret{kind: retTarget} }},
 	{"replTarget", func(c bctx) ret {
 		if c.key == "" {
@@ -159,9 +166,10 @@ func keyString(v rj.Value) string {
 
 // hostModel is the model side: functions for ref/json plus the call log.
 type hostModel struct {
-	log    []string
-	fired  bool    // a holder-mutating callback has done its mutation (mutators.go)
-	target *rj.Obj // the object a holder-mutating toJSON operates on
+	log     []string
+	nesting bool    // inside a nested JSON call made by a callback (reentrant.go)
+	fired   bool    // a holder-mutating callback has done its mutation (mutators.go)
+	target  *rj.Obj // the object a holder-mutating toJSON operates on
 }
 
 func (h *hostModel) fn(mode, name string) *rj.Obj {
@@ -190,6 +198,8 @@ func (h *hostModel) fn(mode, name string) *rj.Obj {
 			return rj.ObjV(o)
 		case retThrow:
 			panic(&rj.Throw{Class: "Boom", Msg: "thrown by callback"})
+		case retNest:
+			return h.nested(r, val, holder)
 		case retGrow:
 			if mode != "toJSON" {
 				return rj.ObjV(rj.NewArray(rj.Num(0)))
@@ -226,6 +236,7 @@ type drv struct {
 	stringify otto.Value
 	log       []string
 	cache     map[string]otto.Value
+	nesting   bool       // see hostModel.nesting
 	fired     bool       // see hostModel.fired
 	del       otto.Value // function(o, k) { delete o[k] }
 	lockFn    otto.Value // function(o, k) { Object.defineProperty(o, k, {... non-writable, non-configurable}) }
@@ -282,6 +293,8 @@ func (d *drv) host(mode string, b *behaviour) func(call otto.FunctionCall) otto.
 			return o.Value()
 		case retThrow:
 			panic(d.vm.MakeCustomError("Boom", "thrown by callback"))
+		case retNest:
+			return d.nested(r, valV, call.This, mode)
 		case retGrow:
 			if mode != "toJSON" {
 				a, err := d.vm.Object(`([0])`)
@@ -405,6 +418,7 @@ type outcome struct {
 func (d *drv) call(fn otto.Value, args ...interface{}) outcome {
 	d.log = d.log[:0]
 	d.fired = false
+	d.nesting = false
 	res := ox.Guard(func() (otto.Value, error) { return fn.Call(otto.UndefinedValue(), args...) })
 	switch {
 	case res.Panicked:
